@@ -921,6 +921,8 @@ class Index:
             callee = self.callee(m, func, expr, depth + 1)
             if isinstance(callee, ClassDef):
                 return callee
+            if isinstance(callee, External) and callee.dotted.split('.')[-1][:1].isupper():
+                return callee  # instance of a class outside the repository (pathlib.Path(), ...)
             if isinstance(callee, FuncDef):
                 if callee.is_classmethod and callee.node.returns is None:
                     return callee.cls
